@@ -505,7 +505,7 @@ func Solve(o *Obligation, timeoutS int, confirm bool) *Result {
 		if !record(solvers[0].name, st, out, secs) {
 			// Stage 2: undecided.  Solver run time on quantified goals varies wildly with declaration order and seed (the
 			// same goal takes 0.4 s with one seed and a minute with another), and an obligation near the budget must not turn
-			// into an alarm on code where it holds: race three differently seeded runs and the two other solvers side by
+			// into an alarm on code where it holds: race five differently seeded runs and the two other solvers side by
 			// side with an extended budget; the first decisive answer wins and stops the rest.
 			ext := 4 * timeoutS
 			if ext < 30 {
@@ -521,7 +521,7 @@ func Solve(o *Obligation, timeoutS int, confirm bool) *Result {
 			var racers []solverSpec
 			var tags []string
 			var budgets []int
-			for k := 1; k <= 3; k++ {
+			for k := 1; k <= 5; k++ {
 				k := k
 				racers = append(racers, solverSpec{"z3-new", func(f string, t int) []string {
 					return []string{"z3-new", fmt.Sprintf("smt.random_seed=%d", k*17), fmt.Sprintf("sat.random_seed=%d", k*17), fmt.Sprintf("-T:%d", t), f}
